@@ -300,6 +300,15 @@ def warg(rnd, w, spec, name, t, allow_refuse=True, force_tags=None,
             w.put(struct.pack('>I', len(raw)), 'str-len')
             w.put(raw)
             return force
+    # what these fields hold in real traffic
+    if force is NotImplemented and name in ('reply_code', 'class_id',
+                                            'method_id', 'reply_text') \
+            and rnd.random() < 0.6:
+        from . import frames as _gf
+        v = _gf.rarg(rnd, spec, name, t)
+        if t == 'shortstr':
+            v = v.encode('utf-8')[:255].decode('utf-8', 'ignore')
+        return warg(rnd, w, spec, name, t, allow_refuse, force_tags, v)
     if t == 'octet':
         v = _wint(rnd, 8, False)
         w.put(bytes([v]))
